@@ -164,6 +164,32 @@ sig!(A1, A2, A3, A4, A5);
 sig!(A1, A2, A3, A4, A5, A6);
 sig!(A1, A2, A3, A4, A5, A6, A7);
 
+/// Render at most the first 300 bytes of an error (the text of a
+/// `DoesNotExist` error lists every function of the module).
+pub fn head(e: &dyn std::fmt::Display) -> String {
+    use std::fmt::Write;
+    struct Head(String);
+    impl Write for Head {
+        fn write_str(&mut self, s: &str) -> std::fmt::Result {
+            let room = 300usize.saturating_sub(self.0.len());
+            if s.len() <= room {
+                self.0.push_str(s);
+                Ok(())
+            } else {
+                let mut cut = room;
+                while !s.is_char_boundary(cut) {
+                    cut -= 1;
+                }
+                self.0.push_str(&s[..cut]);
+                Err(std::fmt::Error)
+            }
+        }
+    }
+    let mut h = Head(String::new());
+    let _ = write!(h, "{e}");
+    h.0
+}
+
 pub enum Got {
     /// `Ok(handle)`; the closure calls the function once
     Handle(Box<dyn FnOnce()>),
@@ -189,7 +215,7 @@ impl<F: Sig> Probe for P<F> {
     fn get(&self, pkg: &mut Package<NoCtx>, name: &str) -> Got {
         match pkg.get_function::<F>(name) {
             Ok(f) => Got::Handle(Box::new(move || F::call_once(&f))),
-            Err(e) => Got::Refused(e.to_string()),
+            Err(e) => Got::Refused(head(&e)),
         }
     }
 }
@@ -231,7 +257,7 @@ impl<F: SigNoCall> Probe for Q<F> {
                 drop(f);
                 Got::Handle(Box::new(|| ()))
             }
-            Err(e) => Got::Refused(e.to_string()),
+            Err(e) => Got::Refused(head(&e)),
         }
     }
 }
